@@ -41,6 +41,7 @@ def parse_overlay(path):
         elif sec[0] == "loop": cur["loops"][sec[1]] = (sec[2], text)
         elif sec[0] == "closure": cur["closures"][sec[1]] = text
         elif sec[0] == "closure_ghost": cur["closure_ghosts"][sec[1]] = text
+        elif sec[0] == "closure_let": cur["closure_lets"][sec[1]] = text
         elif sec[0] == "raw": cur["raw"] = text
         buf = []
     defs = {}
@@ -75,7 +76,7 @@ def parse_overlay(path):
             w = ln[3:].split()
             if not w: sec = None; continue
             if w[0] == "item":
-                cur = {"id": w[1], "of": w[1], "header": "", "prologue": "", "epilogue": "", "loops": {}, "closures": {}, "closure_ghosts": {}, "guard": None, "raw": None}
+                cur = {"id": w[1], "of": w[1], "header": "", "prologue": "", "epilogue": "", "loops": {}, "closures": {}, "closure_ghosts": {}, "closure_lets": {}, "guard": None, "raw": None}
                 if len(w) >= 4 and w[2] == "of": cur["of"] = w[3]
                 items[w[1]] = cur; order.append(w[1]); sec = None
             elif w[0] in ("header", "prologue", "epilogue", "raw"):
@@ -89,6 +90,8 @@ def parse_overlay(path):
                 sec = ("closure", int(w[1]))
             elif w[0] == "closure_ghost":
                 sec = ("closure_ghost", int(w[1]))
+            elif w[0] == "closure_let":
+                sec = ("closure_let", int(w[1]))
             elif w[0] == "guard":
                 cur["guard"] = " ".join(w[1:]); sec = None
             elif w[0] == "end":
@@ -289,6 +292,8 @@ def extract(unit, ex):
         frag = R.r1_await(frag, st)
         for a, b in cfg.get("pre_subst", []):
             frag = R.r8_subst(frag, st, [(a, b)], "R8p")
+        if cfg.get("outline"):
+            frag = R.r14_outline(frag, st, cfg["outline"])
         if cfg.get("result_unfold"):
             frag = R.r10_result_unfold(frag, st)
         if cfg.get("question"):
@@ -301,12 +306,14 @@ def extract(unit, ex):
             frag = R.r10_option_unfold(frag, st, which)
         if cfg.get("drop_nested_fns"):
             frag = R.drop_nested_fns(frag, st)
+        if cfg.get("for_desugar") is not None:
+            frag = R.r16_for_desugar(frag, st, cfg["for_desugar"])
+        if cfg.get("any_idioms"):
+            frag = R.r10_any_idioms(frag, st)
         if cfg.get("array_idioms"):
             frag = R.r10_array_idioms(frag, st)
         if cfg.get("strlit"):
             frag = R.r9_strlit(frag, st, cfg["strlit"])
-        if cfg.get("outline"):
-            frag = R.r14_outline(frag, st, cfg["outline"])
         if cfg.get("select"):
             frag = R.r6_select(frag, st)
         if cfg.get("select_full"):
@@ -380,9 +387,13 @@ def splice_closures(frag, ov, info):
         if gh:
             # the ghost twin of the closure is passed as one more argument right after it
             ins.append((e, T(", " + " ".join(gh.split()))))
+        cl = ov["closure_lets"].get(k)
         if frag[b].s != "{":
             ins.append((e, [Tok("c", "}", None, 0, True)]))
-            ins.append((b, [Tok("o", "{", None, 0, True)]))
+            ins.append((b, [Tok("o", "{", None, 0, True)] + (T(" ".join(cl.split())) if cl else [])))
+        elif cl:
+            # re-bind the destructured parameters at the head of the closure body (the clause restates the parameter as one tuple)
+            ins.append((b + 1, T(" ".join(cl.split()))))
         txt = " ".join(text.split())
         # an obligation tag `/* OBL:id */` survives as an inline comment token
         tag = re.search(r"/\*\s*OBL:[^*]*\*/", txt)
